@@ -123,8 +123,29 @@ def mp_reference(alg, x):
     return E
 
 
+_HIST = []
+
+
+def grad_history(pp, torch):
+    """Once per process, before the first judged call (so a replay in a fresh process takes the same route): gradient passes
+    through Exp, matrix(), Log and Inv on OTHER objects - every algebra type, both dtypes, unbatched and batched.  The property
+    is about every x however the process got there; module-level state written by a backward pass (caches, scratch buffers)
+    must not leak into later forward calls."""
+    if _HIST:
+        return
+    _HIST.append(1)
+    for dt in (torch.float64, torch.float32):
+        for alg, n in (('so3', 3), ('se3', 6), ('rxso3', 4), ('sim3', 7)):
+            for shape in ((), (2,), (1, 3)):
+                for scale in (0.0, 0.07):      # generic last: what a pass leaves behind is that of a generic element
+                    xt = (torch.arange(1, n + 1, dtype=dt) * scale).expand(shape + (n,)).clone().requires_grad_(True)
+                    X = pp.LieTensor(xt, ltype=getattr(pp, alg + '_type')).Exp()
+                    (X.tensor().sum() + X.matrix().sum() + X.Log().tensor().sum() + X.Inv().tensor().sum()).backward()
+
+
 def impl_matrix(pp, torch, alg, x, dtype, shape=()):
     """Exp and matrix() of x, evaluated as the last item of a batch of the given lshape (all items equal x)"""
+    grad_history(pp, torch)
     xt = torch.tensor(x, dtype=dtype)
     shape = tuple(shape)
     xb = xt.expand(shape + xt.shape).clone() if shape else xt
